@@ -6,7 +6,8 @@
 (* A *shape* is a set of deviations D from a base package (rich or         *)
 (* minimal); PkgOf(D) is the abstract foreign package:                     *)
 (*   parts : set of [n name, k kind, via "default"|"override"|"none",      *)
-(*                   cls label, h content token, ct content-type token]    *)
+(*                   cls label, h content token, ct content-type token,    *)
+(*                   b byte class of the content]                          *)
 (*   rels  : set of [src rels-part, id, ty, tg raw target, rt resolved     *)
 (*                   part name, mode "Internal"|"External", k kind, ref]   *)
 (*   body  : sequence of blocks [blk, rel, sty style id of the paragraph,  *)
@@ -15,6 +16,7 @@
 (*                   ts : Seq(token) the tokens of its w:t items])]        *)
 (*   ns, pkgns : how namespaces are spelled in the main part / OPC parts   *)
 (*   styles : [sp spelling of word/styles.xml, defs style ids it defines]  *)
+(*   zip : set of container forms (how the producer wrote the ZIP archive) *)
 (* The harness writes the concrete ZIP + XML from exactly this value.      *)
 (*                                                                         *)
 (* The reference machine state is                                          *)
@@ -57,7 +59,48 @@ MediaOrder == <<"image1.png", "image10.jpeg", "Image2.PNG", "picture.png", "imag
                 "image0.png", "image0", "image2.jpeg", "photo.jpg">>
 NsPrefixes == {"w", "ns0", "default"}
 PkgNs      == {"default", "prefixed"}
-TgStyles   == {"relative", "absolute"}
+\* "absolute": the main part's relationships spell internal targets from the package root (/word/...);
+\* "pkgabs": the package's own relationships do (/word/document.xml, /docProps/core.xml - System.IO.Packaging)
+TgStyles   == {"relative", "absolute", "pkgabs"}
+\* BYTE CLASSES (dimension "bytes"): what the content of a part the library only passes through looks like.
+\* A class applies to the part kinds for which it is well-formed (BytesKinds): parts whose format no standard
+\* constrains (embedded objects, custom data) may be EMPTY or one byte long; XML parts may start with a byte
+\* order mark, be encoded in UTF-16, be larger than any buffer. A shape that deviates in this dimension always
+\* carries parts of those kinds (ExtrasOf).
+ByteClasses == {"empty", "onebyte", "big", "bom", "utf16"}
+OpaqueKinds == {"unknown-ext", "override-only"}
+BytesKinds(c) ==
+  CASE c \in {"empty", "onebyte"} -> OpaqueKinds
+    [] c = "big"   -> OpaqueKinds \cup {"customXml", "theme"}
+    [] c = "bom"   -> {"theme", "fontTable", "webSettings", "customXml", "customXml-props", "docProps-custom",
+                       "people", "commentsExtended"}
+    [] c = "utf16" -> {"customXml", "theme"}
+    [] OTHER       -> {}
+BytesCarriers == {"unkext", "ovronly", "customXml"}
+\* CONTAINER FORMS (dimension "zip"): directory placeholder entries (word/, _rels/ ...) next to the parts,
+\* entries stored without compression, [Content_Types].xml as the last entry. None of them is a part.
+ZipForms   == {"dirs", "stored", "ctlast"}
+\* PLACEMENT (dimension "place"): a part the library knows by a conventional NAME lives under another name -
+\* only the relationship type gives it its role (OPC: part names are the producer's choice). Core properties
+\* under /package/services/metadata/core-properties/<id>.psmdcp is what System.IO.Packaging writes.
+PlaceOrder == <<"core", "app", "numbering", "footnotes", "endnotes", "settings", "styles">>
+PlaceFrom(k) == CASE k = "core" -> "docProps/core.xml" [] k = "app" -> "docProps/app.xml"
+                  [] k = "numbering" -> "word/numbering.xml" [] k = "footnotes" -> "word/footnotes.xml"
+                  [] k = "endnotes" -> "word/endnotes.xml" [] k = "settings" -> "word/settings.xml"
+                  [] k = "styles" -> "word/styles.xml"
+PlaceTo(k)   == CASE k = "core" -> "package/services/metadata/core-properties/0a1b2c3d4e5f.psmdcp"
+                  [] k = "app" -> "docProps/extended.xml"
+                  [] k = "numbering" -> "word/lists/numbering2.xml" [] k = "footnotes" -> "word/footnotes1.xml"
+                  [] k = "endnotes" -> "word/notes/endnotes.xml" [] k = "settings" -> "word/settings2.xml"
+                  [] k = "styles" -> "word/styles2.xml"
+\* the raw target as the relationship part of the source spells it (package root resp. word/)
+PlaceTg(k)   == CASE k = "core" -> PlaceTo(k) [] k = "app" -> PlaceTo(k)
+                  [] k = "numbering" -> "lists/numbering2.xml" [] k = "footnotes" -> "footnotes1.xml"
+                  [] k = "endnotes" -> "notes/endnotes.xml" [] k = "settings" -> "settings2.xml"
+                  [] k = "styles" -> "styles2.xml"
+PlaceVia(k)  == IF k = "core" THEN "default" ELSE "override"
+\* the extra kind(s) that carry the placed part (the styles part belongs to the scheme, not to an extra)
+PlaceExtras(k) == IF k \in {"core", "app"} THEN {"docProps"} ELSE IF k = "styles" THEN {} ELSE {k}
 PkgIds     == {"odFirst", "odLast"}
 ContOrder  == <<"plain", "hyperlink", "smartTag", "ins", "sdt", "fldSimple", "customXml", "hl-ins",
                 "sdt-hl", "st-st", "multiT",
@@ -91,7 +134,11 @@ AllDevs ==
   \cup {Dev("ext", x) : x \in SetOf(ExtOrder)}
   \cup {Dev("media", x) : x \in SetOf(MediaOrder)}
   \cup {Dev("ns", x) : x \in NsPrefixes \ {"w"}}
-  \cup {Dev("pkgns", "prefixed"), Dev("tgstyle", "absolute"), Dev("pkgids", "odLast")}
+  \cup {Dev("pkgns", "prefixed"), Dev("pkgids", "odLast")}
+  \cup {Dev("tgstyle", x) : x \in TgStyles \ {"relative"}}
+  \cup {Dev("bytes", x) : x \in ByteClasses}
+  \cup {Dev("zip", x) : x \in ZipForms}
+  \cup {Dev("place", x) : x \in SetOf(PlaceOrder)}
   \cup {Dev("cont", x) : x \in PlainConts}
   \cup {Dev("blk", x) : x \in SetOf(BlkOrder) \ MixBlks}
   \cup {Dev("xrel", k) : k \in XrelKinds}
@@ -100,7 +147,7 @@ AllDevs ==
   \cup {Dev("sty", x) : x \in StySpellings \ {"w"}}
   \cup {Dev("sdef", x) : x \in SdefIds}
   \cup {Dev("sref", x) : x \in SetOf(SrefOrder)}
-ExclusiveDims == {"base", "scheme", "ns", "pkgns", "tgstyle", "pkgids", "sty", "mixin"}
+ExclusiveDims == {"base", "scheme", "ns", "pkgns", "tgstyle", "pkgids", "sty", "mixin", "bytes"}
 \* a deviation set is a shape iff exclusive dimensions carry at most one value
 ShapeOK(D) == \A x, y \in D : (x.dim = y.dim /\ x.dim \in ExclusiveDims) => x = y
 
@@ -116,6 +163,15 @@ MixinOf(D)  == One(D, "mixin", "t")
 \* a run with a footnote reference is well-formed only in a package that has the footnotes part
 ExtrasOf(D) == Toggle(IF IsMin(D) THEN {} ELSE BaseExtras, Vals(D, "extra")) \cup Vals(D, "xrel")
                \cup (IF "t+fnref" \in ContsOf(D) \/ MixinOf(D) = "t+fnref" THEN {"footnotes"} ELSE {})
+               \* a byte class needs parts it applies to, a placement the part it places
+               \cup (IF Vals(D, "bytes") # {} THEN BytesCarriers ELSE {})
+               \cup UNION {PlaceExtras(k) : k \in Vals(D, "place")}
+BytesOf(D)  == One(D, "bytes", "typical")
+\* the name a shape gives to the part conventionally called n, and how its relationship spells it
+Placed(D, n) == {k \in Vals(D, "place") : PlaceFrom(k) = n}
+Ren(D, n)    == IF Placed(D, n) = {} THEN n ELSE PlaceTo(CHOOSE k \in Placed(D, n) : TRUE)
+RenTg(D, n, tg) == IF Placed(D, n) = {} THEN tg ELSE PlaceTg(CHOOSE k \in Placed(D, n) : TRUE)
+RenVia(D, n, via) == IF Placed(D, n) = {} THEN via ELSE PlaceVia(CHOOSE k \in Placed(D, n) : TRUE)
 SchemeOf(D) == One(D, "scheme", "dense")
 DefsOf(D)   == AlwaysDefs \cup Toggle(IF IsMin(D) THEN {} ELSE BaseSdef, Vals(D, "sdef"))
 SrefsOf(D)  == Toggle(IF IsMin(D) THEN {} ELSE BaseSref, Vals(D, "sref"))
@@ -136,7 +192,7 @@ MediaCls(nm) ==
 HasExt(nm) == nm \notin {"image5", "image0"}
 
 \* ---- parts and relationships contributed by each extra kind ---------------
-MkPart(n, k, via, cls) == [n |-> n, k |-> k, via |-> via, cls |-> cls, h |-> n, ct |-> k]
+MkPart(n, k, via, cls) == [n |-> n, k |-> k, via |-> via, cls |-> cls, h |-> n, ct |-> k, b |-> "typical"]
 \* slot = a relationship before its id is assigned
 Slot(k, ty, rt, tg, mode, ref) == [k |-> k, ty |-> ty, rt |-> rt, tg |-> tg, mode |-> mode, ref |-> ref]
 ISlot(k, ty, rt, tg) == Slot(k, ty, rt, tg, "Internal", "")
@@ -225,9 +281,13 @@ Flat(ss) == IF ss = <<>> THEN <<>> ELSE Head(ss) \o Flat(Tail(ss))
 MediaSeq(D) == SeqFilter(MediaOrder, LAMBDA nm : nm \in MediaOf(D))
 ExtraSeq(D) == SeqFilter(ExtraOrder, LAMBDA k : k \in ExtrasOf(D))
 
+\* a slot whose part the shape places under another name: target re-spelt, kind marked in witnesses
+RenSlot(D, s) == IF s.mode = "Internal" /\ Placed(D, s.rt) # {}
+                 THEN [s EXCEPT !.rt = Ren(D, s.rt), !.tg = RenTg(D, s.rt, s.tg), !.k = s.k \o "@renamed"] ELSE s
+
 DocSlots(D) ==
   LET abs == One(D, "tgstyle", "relative") = "absolute"
-      fix(s) == IF abs /\ s.mode = "Internal" THEN [s EXCEPT !.tg = "/" \o s.rt] ELSE s
+      fix(s0) == LET s == RenSlot(D, s0) IN IF abs /\ s.mode = "Internal" THEN [s EXCEPT !.tg = "/" \o s.rt] ELSE s
       sty == IF SchemeOf(D) = "noStyles" THEN <<>>
              ELSE <<ISlot("styles", "od/styles", StylesPart, "styles.xml")>>
       ex  == Flat([i \in 1..Len(ExtraSeq(D)) |-> KDocSlots(ExtraSeq(D)[i])])
@@ -256,15 +316,24 @@ PkgRelSet(D) ==
   LET od == ISlot("main", "od/officeDocument", DocPart, "word/document.xml")
       ex == Flat([i \in 1..Len(ExtraSeq(D)) |-> KPkgSlots(ExtraSeq(D)[i])])
       all == IF One(D, "pkgids", "odFirst") = "odFirst" THEN <<od>> \o ex ELSE ex \o <<od>>
-  IN {MkRel(PkgRels, "rId" \o ToString(j), all[j]) : j \in 1..Len(all)}
+      abs == One(D, "tgstyle", "relative") = "pkgabs"
+      fix(s0) == LET s == RenSlot(D, s0) IN IF abs THEN [s EXCEPT !.tg = "/" \o s.rt] ELSE s
+  IN {MkRel(PkgRels, "rId" \o ToString(j), fix(all[j])) : j \in 1..Len(all)}
 
 RelsOf(D) == DocRelSet(D) \cup PkgRelSet(D) \cup UNION {KOwnRels(k) : k \in ExtrasOf(D)}
+
+\* a part as the shape places and fills it: name (and how its content type is declared) by placement,
+\* byte class by the "bytes" deviation where it applies to the kind
+Shaped(D, p) ==
+  LET q == IF Placed(D, p.n) = {} THEN p
+           ELSE [p EXCEPT !.n = Ren(D, p.n), !.h = Ren(D, p.n), !.via = RenVia(D, p.n, p.via), !.cls = "renamed"]
+  IN IF p.k \in BytesKinds(BytesOf(D)) THEN [q EXCEPT !.b = BytesOf(D)] ELSE q
 
 PartsOf(D) ==
      {MkPart(CTPart, "content-types", "none", ""), MkPart(PkgRels, "pkg-rels", "default", ""),
       MkPart(DocPart, "main", "override", ""), MkPart(DocRels, "doc-rels", "default", "")}
-  \cup (IF SchemeOf(D) = "noStyles" THEN {} ELSE {MkPart(StylesPart, "styles", "override", "")})
-  \cup UNION {KParts(k) : k \in ExtrasOf(D)}
+  \cup (IF SchemeOf(D) = "noStyles" THEN {} ELSE {Shaped(D, MkPart(StylesPart, "styles", "override", ""))})
+  \cup {Shaped(D, p) : p \in UNION {KParts(k) : k \in ExtrasOf(D)}}
   \cup {MkPart("word/media/" \o nm, "media", IF HasExt(nm) THEN "default" ELSE "override", MediaCls(nm)) : nm \in MediaOf(D)}
 
 \* ---- body ------------------------------------------------------------------
@@ -331,14 +400,19 @@ BodyOf(D) ==
 PkgOf(D) == [parts |-> PartsOf(D), rels |-> RelsOf(D), body |-> BodyOf(D),
              ns |-> One(D, "ns", "w"), pkgns |-> One(D, "pkgns", "default"),
              hlink |-> IdOfKind(DocRelSet(D), "hyperlink"),
-             styles |-> [sp |-> One(D, "sty", "w"), defs |-> DefsOf(D)]]
+             styles |-> [sp |-> One(D, "sty", "w"), defs |-> DefsOf(D)],
+             zip |-> Vals(D, "zip")]
 
 \* ---- reading the model -------------------------------------------------------
 HasPart(ps, n) == \E p \in ps : p.n = n
 PartOf(ps, n) == CHOOSE p \in ps : p.n = n
 KindOfPart(m, n) == IF HasPart(m.parts, n) THEN PartOf(m.parts, n).k ELSE "unknown"
-LabelOfPart(m, n) == IF HasPart(m.parts, n) /\ PartOf(m.parts, n).k = "media" THEN PartOf(m.parts, n).cls
-                     ELSE KindOfPart(m, n)
+\* label of a part in witnesses: media by name class; other parts by kind, byte class and placement
+LabelOfPart(m, n) == IF ~HasPart(m.parts, n) THEN "unknown"
+                     ELSE LET p == PartOf(m.parts, n) IN
+                          IF p.k = "media" THEN p.cls
+                          ELSE p.k \o (IF p.b # "typical" THEN ":" \o p.b ELSE "")
+                                   \o (IF p.cls = "renamed" THEN "@renamed" ELSE "")
 IsMedia(m, n) == KindOfPart(m, n) = "media"
 KindOfRel(m, src, id) == IF \E r \in m.rels : r.src = src /\ r.id = id
                          THEN (CHOOSE r \in m.rels : r.src = src /\ r.id = id).k ELSE "unknown"
@@ -359,6 +433,11 @@ IsParaBlk(bl) == bl.blk \in {"p", "pic", "sdtblk"}
 ParasOf(body) == LET ps == SeqFilter(body, IsParaBlk) IN [i \in 1..Len(ps) |-> BlockToks(ps[i])]
 LooseOf(body) == UNION {BlockToks(body[b]) : b \in {x \in 1..Len(body) : ~IsParaBlk(body[x])}}
 
+\* the part(s) that play a role in package model o: targets of the relationships of the role's type, and
+\* the part under the conventional name
+RoleTargets(o, src, ty) == {r.rt : r \in {x \in o.rels : x.src = src /\ x.ty = ty /\ x.mode = "Internal"}}
+RoleParts(o, src, ty, conv) == {conv} \cup RoleTargets(o, src, ty)
+
 \* ---- the styles part ------------------------------------------------------------
 \* The library keeps word/styles.xml of an opened package verbatim (document.go serializeStyles) and
 \* only EXTENDS it on save (appendMissingStyles): a style the saved body refers to that the part does not
@@ -370,19 +449,23 @@ LooseOf(body) == UNION {BlockToks(body[b]) : b \in {x \in 1..Len(body) : ~IsPara
 \* alone when it has none - C04 demands neither).
 StyleRefs(body) == {body[b].sty : b \in 1..Len(body)} \ {""}
 StylesClaimed(m) == StyleRefs(m.body) \subseteq m.styles.defs
-StylesRegen(m) == IF StylesClaimed(m) THEN {} ELSE {StylesPart}
+StylesRegen(m) == IF StylesClaimed(m) THEN {} ELSE RoleParts(m, DocRels, "od/styles", StylesPart)
 
 \* ---- the machine --------------------------------------------------------------
 InitOf(m) == [m |-> m, o |-> m, paras |-> ParasOf(m.body), loose |-> LooseOf(m.body),
               regen |-> AlwaysRegen \cup StylesRegen(m), xrels |-> {}]
 NoPkg == [parts |-> {}, rels |-> {}, body |-> <<>>, ns |-> "w", pkgns |-> "default", hlink |-> "",
-          styles |-> [sp |-> "w", defs |-> {}]]
+          styles |-> [sp |-> "w", defs |-> {}], zip |-> {}]
 Closed == [m |-> NoPkg, o |-> NoPkg, paras |-> <<>>, loose |-> {}, regen |-> AlwaysRegen, xrels |-> {}]
 
 ParaAppenders == {"AddParagraph", "AddHeading", "AddFormattedParagraph", "AddImage", "AddListItem",
                   "AddFootnote", "AddEndnote", "AddPageBreak"}
-Neutral == {"Save", "SaveFile", "Reopen", "Render", "SetPageMargins", "AddTable", "SetTitle",
-            "SetFootnoteConfig", "AddHeader", "AddFooter"}
+\* DOCUMENT PROPERTIES: every setter goes through SetDocumentProperties and rewrites both properties parts;
+\* reading them (GetDocumentProperties) rewrites nothing
+PropOps == {"SetTitle", "SetAuthor", "SetSubject", "SetKeywords", "SetDescription", "SetCategory",
+            "UpdateStatistics", "SetDocumentProperties"}
+Neutral == {"Save", "SaveFile", "Reopen", "Render", "SetPageMargins", "AddTable",
+            "SetFootnoteConfig", "AddHeader", "AddFooter", "GetDocumentProperties"} \cup PropOps
 EditNames == ParaAppenders \cup Neutral \cup {"RemoveParagraphAt"}
 
 \* Headers and footers. The section refers to at most one definition per kind (default, first, even);
@@ -405,15 +488,26 @@ HFParts(m, e) ==
 \* document.go appendMissingStyles) and is necessary: without it the unchanged library is reported.
 \* The relationship part of a replaced header/footer is included because a correct implementation may
 \* discard it together with the part it belonged to.
+\* ROLES. The part an edit rewrites is the one that plays the role in the opened package - the target of
+\* the relationship of the role's type, whatever its name - and/or the part under the conventional name
+\* (which the unchanged library writes). The RELATIONSHIPS stay claimed: a writer that re-targets the
+\* role's relationship to its own conventional name breaks C04 (Lossy_Conventional).
+\* the roles the library knows by name: <<source, relationship type, conventional part name>>
+Roles == {<<PkgRels, "pk/metadata/core-properties", "docProps/core.xml">>,
+          <<PkgRels, "od/extended-properties", "docProps/app.xml">>,
+          <<DocRels, "od/numbering", "word/numbering.xml">>, <<DocRels, "od/footnotes", "word/footnotes.xml">>,
+          <<DocRels, "od/endnotes", "word/endnotes.xml">>, <<DocRels, "od/settings", "word/settings.xml">>,
+          <<DocRels, "od/styles", StylesPart>>}
 Touches(o, e) ==
   CASE e.op \in HFOps            -> HFParts(o, e)   \* the replaced definition of that kind in the opened package, if any
-    [] e.op = "AddListItem"       -> {"word/numbering.xml"}
-    [] e.op = "AddFootnote"       -> {"word/footnotes.xml"}
-    [] e.op = "AddEndnote"        -> {"word/endnotes.xml"}
-    [] e.op = "SetFootnoteConfig" -> {"word/settings.xml"}
-    [] e.op = "SetTitle"          -> {"docProps/core.xml", "docProps/app.xml"}
+    [] e.op = "AddListItem"       -> RoleParts(o, DocRels, "od/numbering", "word/numbering.xml")
+    [] e.op = "AddFootnote"       -> RoleParts(o, DocRels, "od/footnotes", "word/footnotes.xml")
+    [] e.op = "AddEndnote"        -> RoleParts(o, DocRels, "od/endnotes", "word/endnotes.xml")
+    [] e.op = "SetFootnoteConfig" -> RoleParts(o, DocRels, "od/settings", "word/settings.xml")
+    [] e.op \in PropOps           -> RoleParts(o, PkgRels, "pk/metadata/core-properties", "docProps/core.xml")
+                                     \cup RoleParts(o, PkgRels, "od/extended-properties", "docProps/app.xml")
     \* the new paragraph refers to Heading1: the part is extended unless it defines that id already
-    [] e.op = "AddHeading"        -> IF "Heading1" \in o.styles.defs THEN {} ELSE {StylesPart}
+    [] e.op = "AddHeading"        -> IF "Heading1" \in o.styles.defs THEN {} ELSE RoleParts(o, DocRels, "od/styles", StylesPart)
     [] OTHER                      -> {}
 
 \* relationships an edit replaces by design: AddHeader/AddFooter of kind t replaces the section's
@@ -545,6 +639,13 @@ Lossy_StylesLookalike(a) ==
       hasSty == \E r \in a.rels : r.src = DocRels /\ r.ty = "od/styles" /\ r.rt = StylesPart
   IN [a EXCEPT !.rels = (a.rels \ fx) \cup (IF hasSty THEN {} ELSE
                            {[r EXCEPT !.ty = "od/styles", !.tg = "styles.xml", !.rt = StylesPart] : r \in fx})]
+\* a reader that takes every entry without content for a directory placeholder and skips it
+Lossy_SkipEmpty(m, a) == [a EXCEPT !.parts = {p \in a.parts : ~(HasPart(m.parts, p.n) /\ PartOf(m.parts, p.n).b = "empty")}]
+\* a writer that points the relationship of every role it knows at its own conventional part name
+Lossy_Conventional(a) ==
+  LET conv(r) == IF \E ro \in Roles : ro[1] = r.src /\ ro[2] = r.ty
+                 THEN (CHOOSE ro \in Roles : ro[1] = r.src /\ ro[2] = r.ty)[3] ELSE r.rt
+  IN [a EXCEPT !.rels = {IF r.mode = "Internal" /\ conv(r) # r.rt THEN [r EXCEPT !.rt = conv(r), !.tg = conv(r)] ELSE r : r \in a.rels}]
 \* a writer that regenerates or extends the styles part although nothing is missing from it
 Lossy_StylesRewritten(a) == [a EXCEPT !.parts = {IF p.n = StylesPart THEN [p EXCEPT !.h = "rewritten"] ELSE p : p \in a.parts}]
 Lossy_StylesRId1(a) == [a EXCEPT !.rels = {IF r.src = DocRels /\ r.ty = "od/styles" THEN [r EXCEPT !.id = "rId1"] ELSE r : r \in a.rels}]
